@@ -100,6 +100,9 @@ type c18World struct {
 	nconn  int
 	stop   int
 	resume int
+	// goroutines of earlier worlds that a defective limiter left parked for good
+	baseParked int
+	quiet      bool
 }
 
 var c18ParkedRe = regexp.MustCompile(`(?m)^goroutine \d+ \[sync\.Cond\.Wait[^\]]*\]:\n(?:.*\n)*?.*connlimiter\.\(\*limitListener\)\.increment`)
@@ -125,7 +128,7 @@ func c18New(t *testing.T, stop, resume int, ids []string) *c18World {
 		t.Fatal(err)
 	}
 	w := &c18World{t: t, lim: lim, ls: map[string]*c18Lsn{}, order: ids, conns: map[int]net.Conn{},
-		inners: map[int]*c18Conn{}, stop: stop, resume: resume}
+		inners: map[int]*c18Conn{}, stop: stop, resume: resume, baseParked: c18CountParked()}
 	for _, id := range ids {
 		in := &c18Inner{id: id, enter: make(chan struct{}, 1), result: make(chan c18Res, 1)}
 		l := &c18Lsn{id: id, inner: in, cmd: make(chan struct{}), ret: make(chan c18Res, 1), state: "idle"}
@@ -141,9 +144,20 @@ func c18New(t *testing.T, stop, resume int, ids []string) *c18World {
 	return w
 }
 
+// settleQuiet is settle for the clean-up phase: it gives up silently.
+func (w *c18World) settleQuiet() {
+	defer func() { _ = recover() }()
+	w.quiet = true
+	w.settle()
+	w.quiet = false
+}
+
 // settle waits for quiescence and classifies every listener.
 func (w *c18World) settle() (pc map[string]string) {
 	deadline := time.Now().Add(20 * time.Second)
+	if w.quiet {
+		deadline = time.Now().Add(300 * time.Millisecond)
+	}
 	stable := 0
 	for {
 		called := 0
@@ -165,7 +179,7 @@ func (w *c18World) settle() (pc map[string]string) {
 		if called == 0 {
 			break
 		}
-		if c18CountParked() == called {
+		if c18CountParked()-w.baseParked == called {
 			stable++
 			if stable >= 2 {
 				break
@@ -174,6 +188,9 @@ func (w *c18World) settle() (pc map[string]string) {
 			stable = 0
 		}
 		if time.Now().After(deadline) {
+			if w.quiet {
+				break
+			}
 			w.t.Fatalf("no quiescence: %d accept calls neither parked nor resolved", called)
 		}
 		runtime.Gosched()
@@ -288,7 +305,7 @@ func (w *c18World) finish() {
 		_ = l.lim.Close()
 	}
 	for i := 0; i < 3; i++ {
-		w.settle()
+		w.settleQuiet()
 		for _, l := range w.ls {
 			if l.state == "inner" {
 				l.inner.result <- c18Res{err: net.ErrClosed}
